@@ -50,6 +50,7 @@ def required_cells(tier):
     req["clause:restore"] = 100
     req["history:objects-used-under-another-eps-first"] = 100
     req["history:object-built-before-the-tolerance-change"] = 100
+    req["history:builder-call"] = 300
     return req
 
 
@@ -72,6 +73,8 @@ def cases(rng, budget, widx, nworkers, tier):
                 hist.append(["set_eps", None])
             elif r < 0.8:
                 hist.append(["set_sig_figures", None])
+            elif r < 0.9:
+                hist.append(["build", rng.choice(("Circle", "Cylinder", "Cone", "Sphere", "Parallelepiped"))])
             else:
                 m = rng.choice((2, 3, 4, 5, 6, 7, 8, 9))
                 e = rng.choice(EXPS)
@@ -81,7 +84,8 @@ def cases(rng, budget, widx, nworkers, tier):
         kind = KINDS[(i // len(EXPS)) % len(KINDS)]
         yield {"hist": hist, "final": final, "E": e, "kind": kind, "frame": rng.choice(list(FRAMES)),
                "o": [rng.randint(-16, 16) for _ in range(3)], "which": rng.randint(0, 50), "axis": rng.randint(0, 2),
-               "div": rng.choice((1000, 1000, 100)), "sign": rng.choice((1, -1)), "pretouch": rng.random() < 0.4, "early": rng.random() < 0.3}
+               "div": rng.choice((1000, 1000, 100)), "sign": rng.choice((1, -1)), "pretouch": rng.random() < 0.4, "early": rng.random() < 0.3,
+               "build_after": rng.choice((None, None, None, "Circle", "Cylinder", "Cone", "Sphere"))}
 
 
 # ---- catalogue
@@ -151,6 +155,20 @@ def _coords(case):
 
 def _apply(G, op):
     name, arg = op
+    if name == "build":
+        # a shape builder is called between the setter calls: it must leave the configuration alone
+        c = G.Point(0.5, -1.25, 2.0)
+        if arg == "Circle":
+            G.Circle(c, G.Vector(1, 2, 2), 1.5, 6)
+        elif arg == "Cylinder":
+            G.Cylinder(c, 1.5, G.Vector(1, 2, 2), 5)
+        elif arg == "Cone":
+            G.Cone(c, 1.5, G.Vector(2, -1, 2), 5)
+        elif arg == "Sphere":
+            G.Sphere(c, 1.5, 4, 2)
+        else:
+            G.Parallelepiped(c, G.Vector(1, 0, 0), G.Vector(0, 2, 0), G.Vector(1, 1, 3))
+        return None
     fn = getattr(G, name)
     if arg is None:
         fn()
@@ -217,6 +235,11 @@ def judge(case):
             want = _apply(G, op)
             _diag["history_steps"] += 1
             ge, gs = G.get_eps(), G.get_sig_figures()
+            if want is None:
+                mu.cell("history:builder-call")
+                if abs(ge - prev[0]) > 1e-9 * prev[0] or gs != prev[1]:
+                    mu.fail("builder-changes-configuration/%s" % op[1], "after %s(...) get_eps()=%r, get_sig_figures()=%r; they were %r, %r" % (op[1], ge, gs, prev[0], prev[1]))
+                continue
             if op[1] is None:
                 mu.cell("history:noarg")
                 if ge != 1e-10 or gs != 10:
@@ -228,6 +251,12 @@ def judge(case):
             if gs != round(-math.log10(ge)):
                 mu.fail("sig-eps-inconsistent/%s" % op[0], "after %s(%s): sig=%r but eps=%r" % (op[0], op[1], gs, ge))
             prev = want
+        if case.get("build_after"):
+            _apply(G, ["build", case["build_after"]])
+            mu.cell("history:builder-call")
+            ge, gs = G.get_eps(), G.get_sig_figures()
+            if abs(ge - prev[0]) > 1e-9 * prev[0] or gs != prev[1]:
+                mu.fail("builder-changes-configuration/%s" % case["build_after"], "after %s(...) get_eps()=%r, get_sig_figures()=%r; they were %r, %r" % (case["build_after"], ge, gs, prev[0], prev[1]))
         E = 10.0 ** -case["E"]
         kind = case["kind"]
         mu.cell("kind:%s/E=1e-%d" % (kind, case["E"]), "frame:" + case["frame"])
